@@ -30,6 +30,13 @@ Proof.
     destruct Hp as [Ha [Hb Hc]], H2 as [Hd [He Hf]]. split; [eapply le_trans; eauto | split; congruence].
 Qed.
 
+Lemma tls_shutdown_keeps c : keeps (tls_shutdown c).
+Proof.
+  intros e w ls. unfold tls_shutdown, swallow_err. destruct (t_unread c).
+  - pose proof (points_keeps (t_flush c) e w ls) as H. destruct (points (t_flush c) e w ls) as [[r w1] ls1]. destruct r; exact H.
+  - pose proof (points_keeps (t_unwrap c) e w ls) as H. destruct (points (t_unwrap c) e w ls) as [[r w1] ls1]. destruct r; exact H.
+Qed.
+
 Lemma forceful_keeps p : keeps p -> keeps (forceful p).
 Proof.
   intros H e w ls. unfold forceful.
@@ -129,8 +136,8 @@ Proof.
     split; [exact H1 | split; [eapply le_trans; eauto | split; congruence]]. }
   destruct (t_std c && negb (base_closing b w0)).
   - unfold timed.
-    pose proof (points_keeps (t_unwrap c) {| e_forced := e_forced e; e_timed := true |} w0 ls) as Hu.
-    destruct (points (t_unwrap c) _ w0 ls) as [[r1 w1] ls1]. destruct Hu as [Hu1 [Hu2 Hu3]].
+    pose proof (tls_shutdown_keeps c {| e_forced := e_forced e; e_timed := true |} w0 ls) as Hu.
+    destruct (tls_shutdown c _ w0 ls) as [[r1 w1] ls1]. destruct Hu as [Hu1 [Hu2 Hu3]].
     assert (Hl1 : le w w1) by exact (le_trans _ _ _ Hle0 Hu1).
     assert (Hs1 : same_locks w w1) by (split; congruence).
     destruct r1;
